@@ -71,28 +71,56 @@ def noReaddAll (g : String) : AG → List ElemIn → Bool
   | _, [] => true
   | a, x :: xs => okElem a g x && noReaddAll g (putElem a g x).1 xs
 
-/-- Side condition carving out the open finding C03-edge-readd, and (for addGraph) the string fact
-    `GoodName` that is not proved in Lean. -/
-def NoReadd (a : AG) : Op → Prop
-  | .addGraph g => validName g = true → GoodName g
-  | .addE g es => a.graphs.contains g = true → noReaddAll g a (es.map .e) = true
-  | .bulk g xs => a.graphs.contains g = true → noReaddAll g a xs = true
-  | _ => True
+/-- Boolean form of `GoodName`. -/
+def goodName (g : String) : Bool :=
+  fieldGraph (labelField g "v") == g && fieldGraph (labelField g "e") == g
 
-instance (a : AG) (op : Op) : Decidable (NoReadd a op) := by
-  cases op <;> unfold NoReadd <;> infer_instance
+theorem goodName_iff (g : String) : goodName g = true ↔ GoodName g := by
+  simp [goodName, GoodName]
 
-/-- The side condition along a history, threading the abstract state. -/
-def NoReaddHist : AG → List Op → Prop
-  | _, [] => True
-  | a, o :: os => NoReadd a o ∧ NoReaddHist (specStep a o).1 os
+/-- Boolean side condition (see `NoReadd`). -/
+def noReadd (a : AG) : Op → Bool
+  | .addGraph g => !validName g || goodName g
+  | .addE g es => !a.graphs.contains g || noReaddAll g a (es.map .e)
+  | .bulk g xs => !a.graphs.contains g || noReaddAll g a xs
+  | _ => true
 
-instance : (a : AG) → (ops : List Op) → Decidable (NoReaddHist a ops)
-  | _, [] => by unfold NoReaddHist; infer_instance
-  | a, o :: os => by
-    unfold NoReaddHist
-    have := instDecidableNoReaddHist (specStep a o).1 os
-    infer_instance
+/-- Side condition carving out the open finding C03-edge-readd (addE / bulk on an existing graph:
+    `noReaddAll`), and (for addGraph with a valid name) the string fact `GoodName` that is not
+    proved in Lean.  Decidable: it is a Boolean computation. -/
+def NoReadd (a : AG) (op : Op) : Prop := noReadd a op = true
+
+instance (a : AG) (op : Op) : Decidable (NoReadd a op) := by unfold NoReadd; infer_instance
+
+/-- The side condition along a history, threading the abstract state (Boolean form). -/
+def noReaddHist : AG → List Op → Bool
+  | _, [] => true
+  | a, o :: os => noReadd a o && noReaddHist (specStep a o).1 os
+
+/-- The side condition along a history. -/
+def NoReaddHist (a : AG) (ops : List Op) : Prop := noReaddHist a ops = true
+
+instance (a : AG) (ops : List Op) : Decidable (NoReaddHist a ops) := by unfold NoReaddHist; infer_instance
+
+theorem noReaddHist_cons (a : AG) (o : Op) (os : List Op) :
+    NoReaddHist a (o :: os) ↔ NoReadd a o ∧ NoReaddHist (specStep a o).1 os := by
+  simp [NoReaddHist, NoReadd, noReaddHist]
+
+theorem noReadd_addGraph {a : AG} {g : String} (h : NoReadd a (.addGraph g)) :
+    validName g = true → GoodName g := by
+  intro hv
+  simp only [NoReadd, noReadd, hv, Bool.not_true, Bool.false_or] at h
+  exact (goodName_iff g).1 h
+
+theorem noReadd_addE {a : AG} {g : String} {es : List EdgeIn} (h : NoReadd a (.addE g es)) :
+    a.graphs.contains g = true → noReaddAll g a (es.map .e) = true := by
+  intro hv
+  simpa only [NoReadd, noReadd, hv, Bool.not_true, Bool.false_or] using h
+
+theorem noReadd_bulk {a : AG} {g : String} {xs : List ElemIn} (h : NoReadd a (.bulk g xs)) :
+    a.graphs.contains g = true → noReaddAll g a xs = true := by
+  intro hv
+  simpa only [NoReadd, noReadd, hv, Bool.not_true, Bool.false_or] using h
 
 namespace Lemmas
 
